@@ -36,8 +36,11 @@ func main() {
 		}
 		run.Prog = prog
 		spec.Run(run)
-		if *tier == "thorough" && spec.Thorough != nil {
-			spec.Thorough(run)
+		if *tier == "thorough" {
+			if spec.Thorough != nil {
+				spec.Thorough(run)
+			}
+			rules.SelfTest(run, spec)
 		}
 		return run.Finish(spec.Explanation)
 	}()
